@@ -26,6 +26,50 @@ CHECKS = {
             "buffer, carry-over and back-pressure paths were reached.",
             "Carrier is an in-memory pipe (legal AsyncRead/AsyncWrite); held = on the sessions run.",
             "DESIGN.md §3 C02"),
+    "C03": ("exploration",
+            "differential negotiation monitor: litep2p vs reference multistream-select in both roles + position-keyed payload transparency + rogue listener + exhaustive message-variant groupings",
+            "Every generated (dialer list, listener set, version, carrier script, payload sizes) case runs the real dialer/listener futures over in-memory pipes; "
+            "oracle = first-common-name rule, both sides agree, payload written immediately after negotiation arrives unchanged with zero extra bytes before EOF, "
+            "termination by virtual-time deadlock detection; the WebRTC message variant is enumerated over all main/fallback/listener subsets of 4 names x 4 groupings.",
+            "Reference = multistream-select 0.13; names follow the multistream grammar; node-level fallback mapping is covered by the real-node harness.",
+            "DESIGN.md §3 C03"),
+    "C04": ("exploration",
+            "message-sequence equality monitor over real Substreams on in-memory yamux + lock-step hand-off check + raw malicious sender + allocation monitor, both build profiles",
+            "Real substream::Substream over two real yamux connections: every codec configuration (Identity below/at/above 1024, varint maxima, unbounded) x send API "
+            "(Sink send, feed+flush, send_all, send_framed) x size sequences incl. invalid, > 64 KiB and > yamux window; received sequence must equal the accepted "
+            "sequence; in lock-step mode the sender does nothing after a send/flush reported Ok until the receiver has the message (hand-off clause, decided by "
+            "logical deadlock detection); raw length-prefix attacks must yield an error without panic or over-allocation.",
+            "yamux connections are driven by their own tasks as in TcpConnection; held = on the sessions run.",
+            "DESIGN.md §3 C04"),
+    "C05": ("exploration",
+            "per-attempt outcome ledger + quiescent wedge probe over the real TransportManager driven by a scripted transport (small-scope exhaustive + random histories)",
+            "All action sequences up to a fixed depth over a small alphabet (dial by peer/address, transport reactions, inbound arrivals, closures) under 4 limit "
+            "configurations plus random long histories with adversarial multiaddress shapes are replayed from a fresh real manager; every transport attempt must end "
+            "in exactly one established-or-failure event naming the dialed addresses, errors must not start attempts, and at quiescence a disconnected peer with "
+            "stored addresses must be dialable again with a real transport call; panics of the manager are violations.",
+            "The scripted transport is a hand-written mirror of TcpTransport's contract (trusted base); known finding F3 is listed in known_findings.json.",
+            "DESIGN.md §3 C05"),
+    "C06": ("exploration",
+            "shadow connection counters from the transport-call log + release/surplus probes on the real TransportManager (same scripted harness as C05)",
+            "At every step of every explored history: at most two established connections per peer, established inbound/outbound within the configured maxima; at "
+            "quiescence a node below its limits must accept_pending and accept a connection from an unknown peer and must not refuse a dial with ConnectionLimit, a "
+            "node at its inbound limit must reject the pending connection.",
+            "Same trusted base as C05.",
+            "DESIGN.md §3 C06"),
+    "C10": ("exploration",
+            "address-book snapshot invariants (hook accessor) + open() argument check on the real TransportManager (same scripted harness as C05)",
+            "After every action the stored (address, score) list of each peer is compared with the snapshot before: bound 64, attribution to the peer, newly "
+            "remembered addresses must pass the TCP transport's own parser and must not be own listen addresses, provenance from offered addresses, lowest-scored "
+            "displacement at the bound, re-scoring of exactly the address used, rediscovery never changes a score, dial(peer) opens a top-k by score within free capacity.",
+            "Scores are read through a verif accessor; strict eviction/rediscovery checks are applied to single-address inserts.",
+            "DESIGN.md §3 C10"),
+    "C15": ("exploration",
+            "trace checker over QueryEngine actions against a simulated network: all reply orders enumerated for small networks, random beyond, peer-timeout family in real time",
+            "The real QueryEngine is driven the way kademlia/mod.rs drives it; oracle over the action trace: never the local node, never a peer twice, fresh in-flight "
+            "requests within the parallelism factor, exactly one terminal action, logical termination, result = answered peers sorted by distance within k, closure over "
+            "learned closer peers, exactly-once partial results/providers, no request after the quorum is met.",
+            "Timeout family uses real sleeps with one-sided (sound) freshness margins.",
+            "DESIGN.md §3 C15"),
     "C18": ("exploration",
             "differential runtime monitor vs libp2p-identity + round-trip and panic monitors (Miri on a subset in thorough)",
             "Every generated byte string / base58 string / key blob / ed25519 key is pushed through the real PeerId API and "
